@@ -462,6 +462,24 @@ class SymNum(float):
     def __trunc__(self):
         raise Unsupported("concretisation via trunc()")
 
+    def __floor__(self):
+        if self.t.sort().kind() == z3.Z3_INT_SORT:
+            return self
+        if ENGINE.round_mode == "exact":
+            r = _fold(lambda a, b: math.floor(a), self.t, self.t)
+            if r is not None:
+                return r
+        return SymNum(z3.ToInt(self.t))
+
+    def __ceil__(self):
+        if self.t.sort().kind() == z3.Z3_INT_SORT:
+            return self
+        if ENGINE.round_mode == "exact":
+            r = _fold(lambda a, b: math.ceil(a), self.t, self.t)
+            if r is not None:
+                return r
+        return SymNum(-z3.ToInt(-self.t))
+
     def __index__(self):
         raise Unsupported("concretisation via index")
 
